@@ -1,5 +1,16 @@
 //@ module src/protocol/libp2p/kademlia/routing_table.rs
+//@ annotate src/protocol/libp2p/kademlia/routing_table.rs :: impl ClosestBucketsIter :: fn next_in
+//@   #[cfg_attr(kani, kani::requires(i.0 <= 256))]
+//@   #[cfg_attr(kani, kani::ensures(|r: &Option<BucketIndex>| verif_routing_table::next_in_post(&self.distance, i.0, r)))]
+//@ end
+//@ annotate src/protocol/libp2p/kademlia/routing_table.rs :: impl ClosestBucketsIter :: fn next_out
+//@   #[cfg_attr(kani, kani::requires(i.0 < 256))]
+//@   #[cfg_attr(kani, kani::ensures(|r: &Option<BucketIndex>| verif_routing_table::next_out_post(&self.distance, i.0, r)))]
+//@ end
 //@ harness c14_bucket_index_new kind=proof tier=quick timeout=900
+//@ harness c14_contract_next_in_16 kind=bounded tier=thorough timeout=3000 bound="proof_for_contract of the annotated next_in, distance restricted to 16 low bits"
+//@ harness c14_contract_next_out_16 kind=bounded tier=thorough timeout=3000 bound="proof_for_contract of the annotated next_out, 16 candidate positions"
+//@ harness c14_next_modular kind=bounded tier=thorough timeout=3000 covers=3 bound="256-bit distance; caller verified against the callee contracts via stub_verified (unwind 258)"
 //@ harness c14_next_in_contract_16 kind=bounded tier=quick timeout=900 bound="distance restricted to its low 16 bits, start index <= 16 (same code path as 256 bits; full width is the thorough harness)"
 //@ harness c14_next_out_contract_16 kind=bounded tier=quick timeout=900 bound="distance has all bits above 15 set, start index >= 239 (16 candidate positions)"
 //@ harness c14_next_in_contract kind=proof tier=thorough timeout=3000
@@ -13,6 +24,83 @@ use super::*;
 use crate::protocol::libp2p::kademlia::types::verif_kad_types::limb_bit;
 
 fn dist(l: [u64; 4]) -> Distance { Distance(U256(l)) }
+
+// ---- Kani function contracts (the modular route): the postconditions below are attached to the REAL next_in /
+// next_out in the scratch copy (add-only `#[cfg_attr(kani, kani::ensures(..))]` lines), proved by
+// `proof_for_contract` harnesses, and then `next()` is verified against them with `stub_verified` — the caller sees
+// only the callee's contract, not its body.  Quantifier-free rendering: Some(j) pins j to the closed form
+// "highest set bit below i" / "lowest clear bit above i" computed on the limbs.
+fn highest_set_below(l: &[u64; 4], i: usize) -> Option<usize> {
+    let mut k = i;
+    let mut r = None;
+    while k > 0 { k -= 1; if r.is_none() && limb_bit(l, k) { r = Some(k); } }
+    r
+}
+fn lowest_clear_above(l: &[u64; 4], i: usize) -> Option<usize> {
+    let mut k = i + 1;
+    let mut r = None;
+    while k < 256 { if r.is_none() && !limb_bit(l, k) { r = Some(k); } k += 1; }
+    r
+}
+pub(crate) fn next_in_post(d: &Distance, i: usize, r: &Option<BucketIndex>) -> bool {
+    r.map(|b| b.0) == highest_set_below(&d.0 .0, i)
+}
+pub(crate) fn next_out_post(d: &Distance, i: usize, r: &Option<BucketIndex>) -> bool {
+    r.map(|b| b.0) == lowest_clear_above(&d.0 .0, i)
+}
+impl kani::Arbitrary for BucketIndex {
+    fn any() -> Self { let i: usize = kani::any(); kani::assume(i < 256); BucketIndex(i) }
+}
+
+#[kani::proof_for_contract(ClosestBucketsIter::next_in)]
+#[kani::unwind(258)]
+fn c14_contract_next_in_16() {
+    let low: u16 = kani::any();
+    let it = ClosestBucketsIter { distance: dist([low as u64, 0, 0, 0]), state: ClosestBucketsIterState::Done };
+    let i: usize = kani::any();
+    kani::assume(i <= 16);
+    let _ = it.next_in(BucketIndex(i));
+}
+#[kani::proof_for_contract(ClosestBucketsIter::next_out)]
+#[kani::unwind(258)]
+fn c14_contract_next_out_16() {
+    let hi: u16 = kani::any();
+    let it = ClosestBucketsIter { distance: dist([u64::MAX, u64::MAX, u64::MAX, ((hi as u64) << 48) | 0x0000_ffff_ffff_ffff]), state: ClosestBucketsIterState::Done };
+    let i: usize = kani::any();
+    kani::assume(i >= 239 && i < 256);
+    let _ = it.next_out(BucketIndex(i));
+}
+
+/// `next()` against the CONTRACTS of next_in / next_out only (stub_verified): the step relation of the Verus unit,
+/// re-proved modularly by Kani for every 256-bit distance and every state.
+#[kani::proof]
+#[kani::stub_verified(ClosestBucketsIter::next_in)]
+#[kani::stub_verified(ClosestBucketsIter::next_out)]
+#[kani::unwind(258)]
+fn c14_next_modular() {
+    let l: [u64; 4] = kani::any();
+    let i: usize = kani::any();
+    kani::assume(i < 256);
+    let st: u8 = kani::any();
+    kani::assume(st < 3);
+    let state = match st { 0 => ClosestBucketsIterState::Start(BucketIndex(i)), 1 => ClosestBucketsIterState::ZoomIn(BucketIndex(i)), _ => ClosestBucketsIterState::ZoomOut(BucketIndex(i)) };
+    let mut it = ClosestBucketsIter { distance: dist(l), state };
+    let r = it.next();
+    kani::cover!(st == 1 && matches!(it.state, ClosestBucketsIterState::ZoomOut(_)));
+    kani::cover!(st == 2 && r.is_none());
+    kani::cover!(st == 1 && matches!(it.state, ClosestBucketsIterState::ZoomIn(_)));
+    match st {
+        0 => { assert!(r == Some(BucketIndex(i))); assert!(matches!(it.state, ClosestBucketsIterState::ZoomIn(b) if b.0 == i)); }
+        1 => match highest_set_below(&l, i) {
+            Some(j) => { assert!(r == Some(BucketIndex(j))); assert!(matches!(it.state, ClosestBucketsIterState::ZoomIn(b) if b.0 == j)); }
+            None => { if i != 0 { assert!(r == Some(BucketIndex(0))); assert!(matches!(it.state, ClosestBucketsIterState::ZoomOut(b) if b.0 == 0)); } }
+        },
+        _ => match lowest_clear_above(&l, i) {
+            Some(j) => { assert!(r == Some(BucketIndex(j))); assert!(matches!(it.state, ClosestBucketsIterState::ZoomOut(b) if b.0 == j)); }
+            None => { assert!(r.is_none()); assert!(matches!(it.state, ClosestBucketsIterState::Done)); }
+        },
+    }
+}
 
 /// [X] BucketIndex::new: None <=> d = 0; Some(h) => h < 256, bit h set, no higher bit set
 #[kani::proof]
@@ -114,6 +202,9 @@ fn c14_iter_no_duplicate_4() {
     }
     assert!(seen <= 1, "a bucket index is yielded twice");
 }
+
+// A harness for RoutingTable::on_connection_established ("a stored peer is marked Connected for either endpoint
+// direction") was tried twice (RoutingTable::new; 256 allocation-free buckets) and timed out at 30 min both times.
 
 #[kani::proof]
 fn c14_rt_canary() {
